@@ -765,7 +765,7 @@ func runC19Corpus(run *evid.Run, moq *runner.Moq, work, tier string) {
 	})
 	// concrete inputs of open findings handled by this engine
 	for _, k := range loadKnown().Findings {
-		if k.Status != "open" || k.Engine != "cli" {
+		if k.Status != "open" || k.Engine == "cli-family" {
 			continue
 		}
 		listed := false
@@ -774,9 +774,8 @@ func runC19Corpus(run *evid.Run, moq *runner.Moq, work, tier string) {
 				listed = true
 			}
 		}
-		if !listed {
-			continue
-		}
+		// the concrete inputs of findings about OTHER properties are loadable packages too: moq must terminate with
+		// output or a diagnostic on them (they are shapes the random corpus leaves out)
 		kc, files, ok := readKnownCase(k)
 		if !ok {
 			continue
@@ -789,8 +788,17 @@ func runC19Corpus(run *evid.Run, moq *runner.Moq, work, tier string) {
 		}
 		res := moq.Run(filepath.Join(dst, kc.Cwd), kc.Argv, runner.Opts{CPULimit: 20})
 		o := &cliOutcome{s: &scen{family: "known"}, res: res}
+		run.Eval("known-input|" + k.ID)
 		if v := oracle19(o); len(v) > 0 {
-			run.Known(k.ID, k.Title+" :: "+strings.Join(v, " | "))
+			if listed {
+				run.Known(k.ID, k.Title+" :: "+strings.Join(v, " | "))
+			} else {
+				tf := map[string]string{"stderr.txt": trunc(string(res.Stderr), 5000), "argv.txt": shellJoin(kc.Argv)}
+				for rel, content := range files {
+					tf["tree/"+rel] = content
+				}
+				run.Violation(fmt.Sprintf("input of %s argv=%v :: %s", k.ID, kc.Argv, strings.Join(v, " | ")), tf)
+			}
 		}
 	}
 }
